@@ -577,6 +577,25 @@ def m_minmax(I, st, args, dty, site):
         else:
             r = (max(ia[0], ib[0]), max(ia[1], ib[1]))
         return [(st, ('i', D.fresh_vid(st, r[0], r[1]), a[2]))]
+    # references to values of a crate type with its own Ord: decide with that cmp (std: min(a, b) = a if a <= b else b,
+    # max(a, b) = b if a <= b else a), so that the chosen value is ordered against the other one on each path
+    ta = deref(I, st, a) if a[0] == 'r' else None
+    if ta is not None and ta[0] == 's':
+        cand = f'<{ta[1]} as std::cmp::Ord>::cmp'
+        if cand in I.bodies:
+            outs = []
+            is_min = site['callee'].endswith('min')
+            for s2, o in I.call_body(st, cand, [a, b], site):
+                if o[0] != 'e':
+                    continue
+                for vi in o[2]:       # 0 Less, 1 Equal, 2 Greater
+                    s3 = s2.clone()
+                    a_le_b = vi in (0, 1)
+                    pick = (a if a_le_b else b) if is_min else (b if a_le_b else a)
+                    s3.trace = s3.trace + (('minmax', 'min' if is_min else 'max', 0 if pick is a else 1, vi),)
+                    outs.append((s3, pick))
+            if outs:
+                return outs
     # result is one of the two arguments
     s1, s2 = st.clone(), st.clone()
     return [(s1, a), (s2, b)]
